@@ -718,6 +718,13 @@ def check_round(case, ranked, sel, out, br):
         fails.append('number of sources listed: %d / %d / %d, expected %d' % (len(blocks), len(rng_rows), len(out['ft']), len(ranked)))
         return fails, layout, None, 0
     npar = len(cols) + len(addk)
+    # the printed labels say which column is which: values are compared under their own label; a consistent
+    # re-ordering of labels and values is a layout difference only
+    labels = want_head[5:]
+    order_wp = head[5:] if sorted(head[5:]) == sorted(labels) and len(set(labels)) == len(labels) else labels
+    order_wr = groups[3:] if sorted(groups[3:]) == sorted(labels) and len(set(labels)) == len(labels) else labels
+    pos_wp = [labels.index(l) for l in order_wp]
+    pos_wr = [0, 1, 2] + [3 + labels.index(l) for l in order_wr]
     ks = []
     for si, r in enumerate(ranked):
         k, marg = expected_count(sel, r['chi2'], r['n_data'])
@@ -735,7 +742,7 @@ def check_round(case, ranked, sel, out, br):
             fails.append('write_parameters source line (%r, n_data %d, n_fits %d); expected (%r, %d, %d) for selector %r'
                          % (b['name'], b['n_data'], b['n_fits'], r['name'], r['n_data'], k, sel))
         for i, row in enumerate(b['rows'][:k]):
-            want = [i + 1, sel_names[i], r['chi2'][i], r['av'][i], r['sc'][i]] + exp_rows[i]
+            want = [i + 1, sel_names[i], r['chi2'][i], r['av'][i], r['sc'][i]] + [exp_rows[i][j] for j in pos_wp]
             res = check_row(row, want, ['%d', None, '%10.3f', '%10.3f', '%10.3f'] + ['%10.3e'] * npar)
             if res:
                 shown = row[1] if len(row) > 1 else None
@@ -750,6 +757,7 @@ def check_round(case, ranked, sel, out, br):
                          % (rr['name'], rr['n_data'], rr['n_fits'], r['name'], r['n_data'], k))
         series = [list(r['chi2'][:k]), list(r['av'][:k]), list(r['sc'][:k])] + \
                  [[row[j] for row in exp_rows] for j in range(npar)]
+        series = [series[j] for j in pos_wr]
         if len(rr['trip']) != len(series) or any(len(t) != 3 for t in rr['trip']):
             layout.append('write_parameter_ranges source %r: %d groups of tokens, expected %d triples' % (r['name'], len(rr['trip']), len(series)))
         else:
@@ -765,8 +773,9 @@ def check_round(case, ranked, sel, out, br):
                 if all(math.isnan(x) for x in s):
                     br.add('range_all_nan')
                 if not all(same_num(tok, w, '%10.3e') for tok, w in zip(t, want3)):
-                    fails.append('write_parameter_ranges source %r group %d: printed %r; min / rank-1 / max over the %d '
-                                 'selected fits (NaN skipped): %r' % (r['name'], gi, t, k, [('%10.3e' % w).strip() for w in want3]))
+                    fails.append('write_parameter_ranges source %r group %d (label %r): printed %r; min / rank-1 / max of that '
+                                 'quantity over the %d selected fits (NaN skipped): %r'
+                                 % (r['name'], gi, (['chi2', 'av', 'scale'] + order_wr)[gi], t, k, [('%10.3e' % w).strip() for w in want3]))
         # ---- extract_parameters
         ex = out['ex'][r['name']]
         pars = (['MODEL_NAME'] + cols) if case['extract'] == 'all' else list(case['extract'])
@@ -831,11 +840,11 @@ def check_plots(case, r, k, sel_names, table, pl_out, br):
         if len(xy) < 2 * bins:
             fails.append('plot_params_1d source %r: polygon with %d vertices, expected >= %d' % (r['name'], len(xy), 2 * bins))
         else:
-            got_h = [xy[2 * i][1] for i in range(bins)]
-            got_e = [xy[2 * i][0] for i in range(bins)] + [xy[2 * bins - 1][0]]
+            got_h = [float(xy[2 * i][1]) for i in range(bins)]
+            got_e = [float(xy[2 * i][0]) for i in range(bins)] + [float(xy[2 * bins - 1][0])]
             want_h = [max(float(h), 0.01) for h in hist]
             ok_e = all(abs(a - b) <= 1e-9 * (abs(a) + abs(b)) + 1e-300 for a, b in zip(got_e, edges))
-            if got_h != want_h or [xy[2 * i + 1][1] for i in range(bins)] != want_h or not ok_e:
+            if got_h != want_h or [float(xy[2 * i + 1][1]) for i in range(bins)] != want_h or not ok_e:
                 fails.append('plot_params_1d source %r parameter %s: hatched histogram %r over edges %r; histogram of the '
                              'values of the %d selected fits looked up by model name (%r): %r over %r'
                              % (r['name'], pl['p1'], got_h, [float(x) for x in got_e], k, [float(x) for x in vals],
